@@ -359,6 +359,18 @@ def T5_reader_thread(n, fail_at):
     return 3 if 0 <= fail_at <= n else 2
 
 
+def dry_runs():
+    base = dict(w0=1, r0=0, gone=False, t1=1, t2=2, t3=3, w1=2, w2=3, size=2)
+    for tmo in range(4):
+        yield 'T1_pty', dict(base, tmo=tmo, poll=False)
+        yield 'T1_pty', dict(base, w0=0, tmo=tmo, poll=True)
+        yield 'T2_fd', dict(base, tmo=tmo, poll=False)
+        yield 'T3_socket', dict(base, tmo=tmo, found=3, fail=False)
+        yield 'T4_popen', dict(carry=1, c1=1, c2=2, nitems=3, a1=0, a2=0, a3=0, size=2, tmo=tmo, ateof=False)
+    yield 'T5_reader_thread', dict(n=2, fail_at=-1)
+    yield 'T5_reader_thread', dict(n=2, fail_at=1)
+
+
 MANIFEST_ENTRY = {
     'level_text': 'Bounded symbolic verification of the real read_nonblocking of every transport (pty select/poll, '
                   'raw fd, socket, piped subprocess) as ONE call from an arbitrary world state: bytes written/read '
